@@ -159,6 +159,9 @@ RUNS = {
     "err-last-nested": ('diag_log "n1"; call { if (true) then {\n[1] findIf {5}\n} }', "fail"),
     "spawned-err": ('diag_log "s1"; [] spawn { diag_log "s2";\n1 + "a"\n; diag_log "s3" }; diag_log "s4"', "fail"),
     "spawned-err-last": ('[] spawn {\n{5} count [1]\n}; diag_log "t1"', "fail"),
+    # an unhandled error in one script while another script is still scheduled (asleep / mid-way through its slices)
+    "spawned-err-other-asleep": ('[] spawn { sleep 0.002; diag_log "z9" }; [] spawn {\n1 + "a"\n}; diag_log "z1"', "fail"),
+    "spawned-err-main-busy": ('[] spawn {\n1 + "a"\n}; for "_i" from 1 to 200 do { q = _i }; diag_log "b1"', "fail"),
     "handled": ('diag_log "h1"; {\n1 + "a"\n} except__ { diag_log "h2" }; diag_log "h3"', "ok"),
     "two-clean-scripts": ('[] spawn { diag_log "w1"; diag_log "w2" }; diag_log "w3"', "ok"),
 }
@@ -226,7 +229,7 @@ def spaces(tier):
         Space("faults-depth1", gen_faults(1), check, variant="fast",
               describe="fault at top level and in every template's executed block x 8 error kinds x 6 handler placements"),
         Space("histories", gen_hist(3 if tier == "quick" else 4), check_hist, variant="fast",
-              describe="all sequences of run kinds on one VM (8 kinds)"),
+              describe="all sequences of run kinds on one VM (10 kinds)"),
     ]
     if tier == "quick":
         sp.append(Space("faults-depth2-reduced", gen_faults(2, c02_interact(), ["type", "count-behaviour"], ["none", "except-inner", "try-inner"]), check,
